@@ -77,12 +77,15 @@ def eager_plan(w, gs):
 
 
 def do_next(w, gen):
-    try:
-        return {"out": w.n_obj(next(gen)), "err": ""}
-    except StopIteration:
-        return {"out": 0, "err": ""}
-    except Exception as exc:        # noqa: BLE001 - the class is the observation
-        return {"out": 0, "err": type(exc).__name__}
+    from . import probes as P
+
+    def step():
+        try:
+            return w.n_obj(next(gen))
+        except StopIteration:
+            return 0
+    r = P.call(step)            # with the watchdog: a next() that never returns is the outcome "Hang"
+    return {"out": r["out"] if not r["err"] else 0, "err": r["err"]}
 
 
 # ------------------------------------------------------------------------------------------ model
